@@ -248,7 +248,9 @@ def r3(R, repo):
   for x in real:
     a0 = x.args[0] if x.args else None
     alts = evid.arg_text(f, a0) if a0 is not None and not isinstance(a0, ast.Starred) else set()
-    if "self.make_rng('params')" in alts:
+    mk = mod.funcs.get('Scope.make_rng')
+    dflt = astu.param_default(mk.node, astu.params(mk.node)[1]) if mk is not None and len(astu.params(mk.node)) > 1 else None
+    if "self.make_rng('params')" in alts or ('self.make_rng()' in alts and astu.const_str(dflt) == 'params') or "self.make_rng(name='params')" in alts:
       R.ok(key, (f, x))
     elif any(t.startswith('self.make_rng(') or 'random.key(' in t or 'PRNGKey(' in t for t in alts):
       R.fail(key, (f, x), "the initialiser must be called with self.make_rng('params'), not `%s`" % astu.short(a0))
